@@ -64,6 +64,7 @@ class FnSpec:
     ghosts: list = field(default_factory=list)  # [(name, ast.expr)] entry-state let-bindings
     local_sorts: dict = field(default_factory=dict)
     known: dict = field(default_factory=dict)  # ensures ordinal -> known-finding id
+    for_prop: dict = field(default_factory=dict)  # ensures ordinal -> property id the clause belongs to (ensures_for)
     reraise: dict = field(default_factory=dict)  # raises-clause ordinal -> name of the Exc parameter whose object is re-raised
 
     @property
@@ -317,6 +318,11 @@ def _load_fn(m: Module, node: ast.FunctionDef, kind, deco):
             # ensures_known("KF-id", expr): a clause of the statement that is KNOWN not to hold on a recorded witness class;
             # refuted + listed in known_findings.json => KNOWN-FINDING line, not a violation; discharged => defect gone
             fs.known[len(fs.ensures)] = _const(call.args[0])
+            fs.ensures.append(call.args[1])
+        elif fn == "ensures_for":
+            # ensures_for("Cxx", expr): a clause that belongs to the claim of ANOTHER property (which re-proves this unit as a
+            # dependency): it is proved like any other, but a failure is reported for that property only
+            fs.for_prop[len(fs.ensures)] = _const(call.args[0])
             fs.ensures.append(call.args[1])
         elif fn == "raises":
             when, strict, ens = None, True, None
